@@ -1,0 +1,66 @@
+//go:build verif
+
+// Contracts for the bytecode codec (vm.go), checked by /verif/cmd/vcgo.
+// This file contains comments only and is compiled only under the `verif` tag.
+
+package vm
+
+// A length-prefixed symbol starts at offset o of b and is complete.
+//@ pred okStr(b, o) = o >= 0 && o < len(b) && int(b[o]) >= 1 && o + 1 + int(b[o]) <= len(b)
+//@ ghost afterStr(b, o) = o + 1 + int(b[o])
+//@ ghost strAt(b, o) = str(b[o+1 : o+1+int(b[o])])
+// A length-prefixed big-endian integer of at most 4 bytes starts at o and is complete.
+//@ pred okInt(b, o) = o >= 0 && o < len(b) && int(b[o]) <= 4 && o + 1 + int(b[o]) <= len(b)
+//@ ghost afterInt(b, o) = o + 1 + int(b[o])
+//@ ghost be(b, o, n) = ite(n == 0, 0, ite(n == 1, int(b[o]), ite(n == 2, int(b[o])*256 + int(b[o+1]), ite(n == 3, int(b[o])*65536 + int(b[o+1])*256 + int(b[o+2]), int(b[o])*16777216 + int(b[o+1])*65536 + int(b[o+2])*256 + int(b[o+3])))))
+//@ ghost intAt(b, o) = be(b, o+1, int(b[o]))
+//@ ghost opAt(b, o) = int(b[o])*256 + int(b[o+1])
+
+//@ func opSplit
+//@   ensures[C15] @complete result2 == nil ==> len(b) >= 2 && opAt(b, 0) <= _MAX
+//@   ensures[C14,C15] @value result2 == nil ==> int(result0) == opAt(b, 0) && result1 == b[2:]
+//@   ensures[C14] @accepts len(b) >= 2 && opAt(b, 0) <= _MAX ==> result2 == nil
+
+//@ func instructionSplit
+//@   ensures[C15] @complete result2 == nil ==> okStr(b, 0)
+//@   ensures[C14,C15] @value result2 == nil ==> result0 == strAt(b, 0) && result1 == b[afterStr(b, 0):]
+//@   ensures[C14] @accepts okStr(b, 0) ==> result2 == nil
+
+//@ func intSplit
+//@   ensures[C15] @complete result2 == nil ==> okInt(b, 0)
+//@   ensures[C14,C15] @value result2 == nil ==> int(result0) == intAt(b, 0) && result1 == b[afterInt(b, 0):]
+//@   ensures[C14] @accepts okInt(b, 0) ==> result2 == nil
+//@   loop 1 modifies r[*]
+//@   loop 1 invariant 0 <= int(i) && int(i) <= 4 && c == max(0, int(i) - int(ll)) && len(r) == 4
+//@     && forall(j, 0, 4, int(r[j]) == ite(j < int(i) && j >= int(ll), int(b[j - int(ll)]), 0))
+
+//@ func parseSym
+//@   ensures[C15] @complete result2 == nil ==> okStr(b, 0)
+//@   ensures[C14,C15] @value result2 == nil ==> result0 == strAt(b, 0) && result1 == b[afterStr(b, 0):]
+//@   ensures[C14] @accepts okStr(b, 0) ==> result2 == nil
+
+//@ func parseTwoSym
+//@   ensures[C15] @complete result3 == nil ==> okStr(b, 0) && okStr(b, afterStr(b, 0))
+//@   ensures[C14,C15] @value result3 == nil ==> result0 == strAt(b, 0) && result1 == strAt(b, afterStr(b, 0))
+//@     && result2 == b[afterStr(b, afterStr(b, 0)):]
+//@   ensures[C14] @accepts okStr(b, 0) && okStr(b, afterStr(b, 0)) ==> result3 == nil
+
+//@ func parseSymLen
+//@   ensures[C15] @complete result3 == nil ==> okStr(b, 0) && okInt(b, afterStr(b, 0))
+//@   ensures[C14,C15] @value result3 == nil ==> result0 == strAt(b, 0) && int(result1) == intAt(b, afterStr(b, 0))
+//@     && result2 == b[afterInt(b, afterStr(b, 0)):]
+//@   ensures[C14] @accepts okStr(b, 0) && okInt(b, afterStr(b, 0)) ==> result3 == nil
+
+//@ func parseSymSig
+//@   ensures[C15] @complete result4 == nil ==> okStr(b, 0) && okInt(b, afterStr(b, 0)) && afterInt(b, afterStr(b, 0)) < len(b)
+//@   ensures[C14,C15] @value result4 == nil ==> result0 == strAt(b, 0) && int(result1) == intAt(b, afterStr(b, 0))
+//@     && result2 == (int(b[afterInt(b, afterStr(b, 0))]) > 0)
+//@     && result3 == b[afterInt(b, afterStr(b, 0)) + 1:]
+//@   ensures[C14] @accepts okStr(b, 0) && okInt(b, afterStr(b, 0)) && afterInt(b, afterStr(b, 0)) < len(b) ==> result4 == nil
+
+//@ func parseSig
+//@   ensures[C15] @complete result3 == nil ==> okInt(b, 0) && afterInt(b, 0) < len(b)
+//@   ensures[C14,C15] @value result3 == nil ==> int(result0) == intAt(b, 0)
+//@     && result1 == (int(b[afterInt(b, 0)]) > 0)
+//@     && result2 == b[afterInt(b, 0) + 1:]
+//@   ensures[C14] @accepts okInt(b, 0) && afterInt(b, 0) < len(b) ==> result3 == nil
